@@ -389,16 +389,25 @@ def run_family(tier, seed):
     key = (tier, seed)
     if key in _CACHE:
         return _CACHE[key]
-    from . import family
+    from . import dump, family
     n = len(family.loader_family(tier))
-    jobs = [(i, tier, seed) for i in range(n)]
+    nd = len(dump.dumper_family(tier))
+    jobs = [("L", (i, tier, seed)) for i in range(n)] + [("D", (i, tier, seed)) for i in range(nd)]
     if os.environ.get("VERIF_SERIAL") == "1":
-        res = [verify_case(j) for j in jobs]
+        res = [_dispatch(j) for j in jobs]
     else:
         with mp.get_context("fork").Pool(min(16, os.cpu_count() or 4)) as pool:
-            res = pool.map(verify_case, jobs, chunksize=1)
+            res = pool.map(_dispatch, jobs, chunksize=1)
     _CACHE[key] = res
     return res
+
+
+def _dispatch(job):
+    kind, j = job
+    if kind == "L":
+        return verify_case(j)
+    from . import dump
+    return dump.verify_dump_case(j)
 
 
 def extra_for_property(prop, tier, seed):
